@@ -415,7 +415,7 @@ LAWS = [
         nontrivial=lambda c: len(c['formulas']) >= 2,
         rule='1-4 of 75 formulas that push host lists (variable values flat and nested, a listener-served range and cell value, arguments handed to and a list returned by custom functions) through array arithmetic, array literals, omitted-slot calls, '
              'every aggregate, LARGE/MEDIAN/INDEX/MATCH/TEXTJOIN/CONCATENATE/SUMIFS...: afterwards every host list is deep-equal to its copy and consists of the very same list objects'),
-    Law('order_independence', check_order, strategy=order_case, quick=170, thorough=12000, shards=(16, 16), key=lambda c: '',
+    Law('order_independence', check_order, strategy=order_case, quick=170, thorough=12000, shards=(16, 16), key=lambda c: '', guard=400,
         classes=lambda c: ('debug:%s' % c['debug'], 'n%d' % min(len(c['formulas']), 4)), required=('debug:True', 'debug:False', 'n2', 'n4'),
         nontrivial=lambda c: len(c['formulas']) >= 3,
         rule='2-6 distinct formulas over values that are equal but of different kinds (TRUE/1/1.0/"1", 0/0.0/-0.0, 2^53 as int and float, a date and its serial, lists of them) under observers that tell the kinds apart (&"", TYPE, IS*, N, T, EXACT, MATCH, COUNTIF, TEXTJOIN), '
